@@ -285,6 +285,13 @@ def case_table(mon, xs, ys, kind, qseed):
                                                      raised=repr(ex)))
             continue
         err = abs(Fraction(v) - want)
+        # an abscissa within the object's tolerance (1e-10) of a tabulated one
+        # is that node (documented): its ordinate is the answer there, and the
+        # interpolant may differ from it by |P'| * 1e-10
+        node = [b for a, b in zip(xs, ys) if abs(a - q) < 1e-10]
+        if node and v == node[0]:
+            err = Fraction(0)
+            mon.cls("query-within-tolerance-of-a-node", ("nq", q) + ident)
         worst = max(worst, float(err) / scale)
         mon.check("value==exact-interpolant", err <= 1e-9 * scale,
                   lambda: dict(case, at=q, got=v, exact=float(want)))
@@ -420,6 +427,24 @@ def case_root(mon, xs, ys, xl, xh, which):
     ulp = math.ulp(max(abs(lo), abs(hi), 1e-300))
     if float(slope) * ulp * 8.0 > 1e-10:
         mon.refusal("tolerance-1e-10-unreachable-in-double(not judged)")
+        return
+    # ... and the rounding of the evaluation itself: the Newton form sums
+    # terms c_k * prod(x - x_i) that cancel; its value carries about
+    # 2**-52 * sum |term| of noise (measured: 0.6e-10..1.2e-10 where this
+    # bound says 8e-10), so |f(x)| <= 1e-10 may never be met
+    Q = P if which == "root" else Poly(sx, [P.d(v) for v in sx])
+    qx = [float(v) for v in Q.x]
+    qc = [abs(float(v)) for v in Q.c]
+    cond = 0.0
+    for g in grid[::4]:
+        gf = float(g)
+        term, tot = 1.0, 0.0
+        for k, ck in enumerate(qc):
+            tot += ck * term
+            term *= abs(gf - qx[k])
+        cond = max(cond, tot)
+    if cond * 2.0 ** -52 > 4e-10:
+        mon.refusal("tolerance-1e-10-below-evaluation-noise(not judged)")
         return
     signs = sum(1 for a, b in zip(sorted(zip(xs, ys)), sorted(zip(xs, ys))[1:])
                 if a[1] * b[1] < 0)
